@@ -110,6 +110,22 @@ func nameOf(t token.Token) rune { return []rune(t.Lexeme)[0] }
 func scExec(st ast.Stmt, s int) bool {
 	switch n := st.(type) {
 	case *ast.VarStmt:
+		// an initialiser that reads a name sees the innermost binding visible at that moment
+		// (in a comma-separated list: including the names declared earlier in the same list)
+		if id, isRead := n.Initializer.(*ast.Identifier); isRead {
+			ts, ti := scLookup(s, nameOf(id.Name))
+			if ts < 0 {
+				scErr = true
+				return false
+			}
+			v, null, fn := scScopes[ts].vals[ti], scScopes[ts].null[ti], scScopes[ts].isFn[ti]
+			if scHas(s, nameOf(n.Name)) {
+				scErr = true
+				return false
+			}
+			scBindV(s, nameOf(n.Name), v, null, fn)
+			return true
+		}
 		v, null := litValue(n.Initializer)
 		if scHas(s, nameOf(n.Name)) {
 			scErr = true
@@ -277,7 +293,14 @@ func genScopeStmt(depth int, inFn bool) ast.Stmt {
 			// a comma-separated declaration of two names (the parser's VarListStmt)
 			nm2 := scName()
 			nm2.Line = nm.Line
-			return &ast.VarListStmt{Declarations: []ast.VarStmt{{Name: nm, Initializer: scLit(), Line: nm.Line}, {Name: nm2, Initializer: scLit(), Line: nm.Line}}}
+			var init2 ast.Expr = scLit()
+			if verifChoice(2) == 1 {
+				// the second initialiser reads a name (possibly the first name of the list)
+				rd := scName()
+				rd.Line = nm.Line
+				init2 = &ast.Identifier{Name: rd, Line: nm.Line}
+			}
+			return &ast.VarListStmt{Declarations: []ast.VarStmt{{Name: nm, Initializer: scLit(), Line: nm.Line}, {Name: nm2, Initializer: init2, Line: nm.Line}}}
 		}
 		return &ast.VarStmt{Name: nm, Initializer: scLit(), Line: nm.Line}
 	case 1:
